@@ -81,11 +81,20 @@ def gen(rng, mode=None):
     labels = labels[: rng.randint(4, 10)]
     weighted = rng.random() < 0.4
     real_w = rng.random() < 0.5  # real-valued weights (the model is defined for any non-negative A_e)
+    zero_w = rng.random() < 0.25
     es = {}
     for _ in range(rng.randint(2, 14)):
         s = min(rng.choice([2, 2, 2, 3, 3, 4, 5]), len(labels))
         e = tuple(sorted(rng.sample(labels[: max(s, len(labels) - rng.randint(0, 2))], s)))
         es[e] = (rng.choice([0.4, 1.5, 2.75, 0.25, 3, 1]) if real_w else rng.randint(1, 4)) if weighted else 1
+        if weighted and zero_w and rng.random() < 0.35:
+            es[e] = 0  # a hyperedge of weight 0 is present: its nodes are not isolated
+    if weighted and zero_w and rng.random() < 0.6 and len(es) >= 3:
+        # one node ALL of whose hyperedges have weight 0 (it still belongs to hyperedges: not isolated), the others keep weight
+        n0 = rng.choice(sorted({v for e in es for v in e}, key=repr))
+        if any(n0 not in e for e in es):
+            for e in es:
+                es[e] = 0 if n0 in e else (es[e] or 1)
     h = hgx.Hypergraph(list(es), weighted=weighted, weights=list(es.values()) if weighted else None)
     for n in labels:
         if rng.random() < 0.5:
@@ -107,7 +116,42 @@ FORCED = {  # witness inputs of the open findings, re-confirmed on every run thr
 }
 
 
+def many_nodes_hysc_case(ctx, rng, idx):
+    """(Two spectral fits on ~2100 nodes, several seconds.)  A hypergraph far beyond 2000 nodes that falls
+    apart into hundreds of components, so that the low end of the Laplacian spectrum is highly degenerate; the clauses
+    for HySC (one community per non-isolated node, none for isolated ones, same seed -> same result) do not depend on size."""
+    import hypergraphx as hgx
+    from hypergraphx.communities.hy_sc.model import HySC
+
+    ctx.event("2100-node-disconnected-input")
+    n_comp = 700
+    edges = [(3 * i, 3 * i + 1, 3 * i + 2) for i in range(n_comp)] + [(3 * i, 3 * i + 1) for i in range(0, n_comp, 7)]
+    h = hgx.Hypergraph(edges)
+    iso = [3 * n_comp + j for j in range(5)]
+    h.add_nodes(iso)
+    N, K, seed = 3 * n_comp + 5, 3, rng.randrange(10**6)
+
+    def wit(x=None):
+        return {"nodes": N, "components": n_comp, "K": K, "seed": seed, "extra": repr(x)[:300]}
+
+    a = call(quiet, HySC(seed=seed, n_realizations=1).fit, h, K=K)
+    b = call(quiet, HySC(seed=seed, n_realizations=1).fit, h, K=K)
+    if isinstance(a, _Raised) or isinstance(b, _Raised):
+        ctx.check("C17:hysc", False, f"C17:HySC.fit:raised:{type((a if isinstance(a, _Raised) else b).e).__name__}", lambda: wit((a, b)))
+        return
+    X = np.asarray(a)
+    ok = X.shape == (N, K) and set(np.unique(X)) <= {0.0, 1.0}
+    ctx.check("C17:hysc", ok, "C17:HySC:not-a-0/1-matrix-of-shape-NxK", wit)
+    if ok:
+        ctx.check("C17:hysc", bool((X[: 3 * n_comp].sum(axis=1) == 1).all()), "C17:HySC:non-isolated-node-without-exactly-one-community", wit)
+        ctx.check("C17:hysc", bool((X[3 * n_comp:].sum(axis=1) == 0).all()), "C17:HySC:isolated-node-assigned", wit)
+    ctx.check("C17:reproducible", np.array_equal(X, np.asarray(b)), "C17:HySC:same-seed-different-result", lambda: wit(int((X != np.asarray(b)).any(axis=1).sum())))
+    ctx.distinct_add(("many-nodes-hysc", seed))
+
+
 def run_case(ctx, rng, idx):
+    if idx == 17 or (ctx.tier == "thorough" and idx % 4000 == 17):
+        return many_nodes_hysc_case(ctx, rng, idx)
     mode = ("big" if idx == 7 or (ctx.tier == "thorough" and idx % 300 == 11) else
             "wide" if idx == 8 or (ctx.tier == "thorough" and idx % 300 == 13) else "single" if idx % 25 == 9 else None)
     if mode:
